@@ -18,6 +18,35 @@ OUT = os.environ.get("VERIF_OUT", VERIF)
 NCPU = min(16, os.cpu_count() or 1)
 
 
+def pack(obj):
+    """opaque, exact serialisation of a generated case for replay files (the human-readable form is stored next to it)"""
+    import base64, pickle, zlib
+    return base64.b64encode(zlib.compress(pickle.dumps(obj, protocol=4))).decode("ascii")
+
+
+def unpack(text):
+    import base64, pickle, zlib
+    return pickle.loads(zlib.decompress(base64.b64decode(text)))
+
+
+def rejudge(sh, fn):
+    """run `fn` (which re-evaluates one stored case through the property's own judge) and turn what it reported into a
+    replay verdict: violated (also for a listed known finding: it is reproduced) / inconclusive / held"""
+    before = len(sh.violations) + sum(sh.known.values())
+    inc = sum(sh.inconclusive.values())
+    fn()
+    for v in sh.violations.values():
+        print("  " + v["sig"] + ": " + v["msg"][:1500].replace("\n", "\n  "))
+    for k, ex in sh.known_examples.items():
+        print("  known finding %s: %s" % (k, (ex.get("msg") or "")[:600].replace("\n", "\n  ")))
+    if len(sh.violations) + sum(sh.known.values()) > before:
+        return "violated"
+    if sum(sh.inconclusive.values()) > inc:
+        print("  inconclusive: %s" % dict(sh.inconclusive))
+        return "inconclusive"
+    return "held"
+
+
 def h64(obj):
     if not isinstance(obj, (bytes, str)):
         obj = json.dumps(obj, sort_keys=True, default=str)
@@ -52,6 +81,12 @@ class Shard:
         self.known_examples = {}
         self.inconclusive = collections.Counter()
         self._workers = {}
+        # round bookkeeping: every call of expired() is a round boundary. Generation depends only on
+        # (seed, property, shard) and the round number, so a violation can be replayed by re-running its shard up to
+        # the round in which it was observed (replay_target), independent of wall-clock time.
+        self.round = 0
+        self.replay_target = None
+        self.known_sigs = set()
 
     # -- workers ----------------------------------------------------
     def worker(self, profile="R", **kw):
@@ -78,11 +113,16 @@ class Shard:
         return self.t_end - time.monotonic()
 
     def expired(self):
+        self.round += 1
+        if self.replay_target is not None:
+            return self.round > self.replay_target
         return time.monotonic() >= self.t_end
 
     def past(self, fraction):
         """has this share of the time budget been used? (fixed strata such as the corpus pass stop here so that the
         generated strata always get the rest)"""
+        if self.replay_target is not None:
+            return False
         return time.monotonic() >= self.t0 + fraction * (self.t_end - self.t0)
 
     def ev(self, n=1):
@@ -107,13 +147,16 @@ class Shard:
         and for matching known findings; `facts` are the observations classifiers look at."""
         facts = facts or {}
         kf = findings.classify(self.prop, sig, facts, replay)
+        where = {"shard": self.shard, "nshards": self.nshards, "round": self.round}
         if kf is not None:
             self.known[kf] += 1
+            if len(self.known_sigs) < 100000:
+                self.known_sigs.add(sig)
             if kf not in self.known_examples:
-                self.known_examples[kf] = {"sig": sig, "msg": msg, "replay": replay}
+                self.known_examples[kf] = {"sig": sig, "msg": msg, "replay": replay, "where": where}
             return False
         if sig not in self.violations and len(self.violations) < self.MAX_VIOL:
-            self.violations[sig] = {"sig": sig, "msg": msg, "replay": replay, "facts": facts}
+            self.violations[sig] = {"sig": sig, "msg": msg, "replay": replay, "facts": facts, "where": where}
         self.counters["violating_observations"] += 1
         return True
 
@@ -150,11 +193,48 @@ def _shard_main(args):
     return s
 
 
+def round_replay(mod, payload, bins, params):
+    w = payload.get("where")
+    if not w:
+        print("(replay file predates round bookkeeping: no shard/round recorded)")
+        return "inconclusive"
+    sh = Shard(payload["property"], payload["tier"], payload["seed"], w["shard"], w["nshards"], bins, 24 * 3600, params)
+    sh.replay_target = w["round"]
+    print("re-running shard %d/%d of seed %d (tier %s) up to round %d ..." % (w["shard"], w["nshards"], payload["seed"], payload["tier"], w["round"]))
+    err = None
+    try:
+        mod.run(sh)
+    except Exception:
+        err = traceback.format_exc()
+    finally:
+        sh.close()
+    if err:
+        print(err)
+        return "inconclusive"
+    sig = payload["sig"]
+    if sig in sh.violations:
+        v = sh.violations[sig]
+        print("  " + sig + ": " + v["msg"][:1500].replace("\n", "\n  "))
+        return "violated"
+    if sig in sh.known_sigs:
+        print("  reproduced; classified as a known finding")
+        return "violated"
+    print("  the recorded observation did not recur (%d rounds, %d evaluations re-run)" % (sh.round, sh.evaluations))
+    return "held"
+
+
 def run_property(mod, tier, seed, replay=None):
     """Build what the property needs from the current tree, run its shards, merge, write
     evidence, print KNOWN-FINDING / VIOLATION lines. Returns the process exit code."""
     prop = mod.ID
     t0 = time.time()
+    if replay is not None:
+        try:
+            _p = json.load(open(replay))
+            tier, seed = _p.get("tier", tier), _p.get("seed", seed)
+        except (OSError, ValueError) as e:
+            print("BROKEN: cannot read replay file: %s" % e)
+            return 2
     plan = mod.plan(tier)
     nshards = plan.get("nshards", NCPU)
     budget_s = plan.get("budget_s", 60)
@@ -178,14 +258,17 @@ def run_property(mod, tier, seed, replay=None):
         params = mod.prepare(tier, seed, bins, params) or params
 
     if replay is not None:
+        payload = json.load(open(replay))
         sh = Shard(prop, tier, seed, 0, 1, bins, 600, params)
         try:
-            payload = json.load(open(replay))
             verdict = mod.replay(sh, payload)
         finally:
             sh.close()
+        if not verdict.startswith(("violated", "held", "inconclusive")):
+            # the property has no case-level replay: re-run the recorded shard up to the recorded round
+            verdict = round_replay(mod, payload, bins, params)
         print("replay verdict: %s" % verdict)
-        return 1 if verdict == "violated" else 0
+        return 1 if verdict == "violated" else (2 if verdict == "inconclusive" else 0)
 
     args = [(mod.__name__, prop, tier, seed, i, nshards, bins, budget_s, params) for i in range(nshards)]
     if nshards == 1:
@@ -227,7 +310,7 @@ def run_property(mod, tier, seed, replay=None):
         os.makedirs(rdir, exist_ok=True)
         path = os.path.join(rdir, "%016x.json" % h64(sig))
         with open(path, "w") as f:
-            json.dump({"property": prop, "sig": sig, "msg": v["msg"], "seed": seed, "tier": tier,
+            json.dump({"property": prop, "sig": sig, "msg": v["msg"], "seed": seed, "tier": tier, "where": v.get("where"),
                        "facts": v.get("facts"), "replay": v["replay"]}, f, indent=1, default=str)
         viol_lines.append((sig, v["msg"], path))
 
